@@ -11,8 +11,8 @@ import (
 	"verif/harness/lib"
 )
 
-// runnerProbes decides, on two fixed minimal histories, whether the runner defects recorded in
-// known/C18.json are present (the model variant follows), and reports them.
+// runnerProbes: the minimal histories of the two repaired runner defects (69981ea, edddfcf), run for
+// the record like any other history (violations + correspondence with the current-tree model).
 func (h *harness) runnerProbes() {
 	// L9: Migrate blocks until cancellation and returns (nil, wrapped ctx.Err())
 	l9 := runnerHistory{Starts: []startSpec{
@@ -22,27 +22,9 @@ func (h *harness) runnerProbes() {
 	// unknown last-target bits: a newer binary opted into / started migration 2, this binary has 2
 	unk := runnerHistory{Init: diskSpec{HasMeta: true, Cur: 0b011, Last: 0b111, Ist: map[int]string{2: "aa"}},
 		Starts: []startSpec{{Reg: "mm", CancelAt: never, CrashAt: never}}}
-	// the probes run with the model in "pinned" mode; mismatches are not recorded here
-	probe := func(hist runnerHistory, sig string) bool {
-		tmp := lib.NewResult("")
-		saved := h.res
-		h.res = tmp
-		h.bt.res = tmp
-		h.runnerHistoryCase(hist, "probe")
-		h.res = saved
-		h.bt.res = saved
-		for _, v := range tmp.Violations {
-			if v.Sig == sig {
-				return true
-			}
-		}
-		return false
+	for _, hist := range []runnerHistory{l9, unk} {
+		h.runnerHistoryCase(hist, "sentinel")
 	}
-	h.l9 = probe(l9, "runner-marks-applied-after-nil-state-and-ctx-error")
-	h.unkLast = probe(unk, "newrunner-accepts-unknown-last-target-bits")
-	h.res.Hit(fmt.Sprintf("probe:runner-markOnNilCtx=%v", h.l9))
-	h.res.Hit(fmt.Sprintf("probe:runner-ignoreUnknownLast=%v", h.unkLast))
-	h.probeHists = []runnerHistory{l9, unk}
 }
 
 // ---- SchemaVersion / registry correspondence ---------------------------------------------
